@@ -318,15 +318,18 @@ def shrink_candidates(case):
             pass
 
 
-def shrink(harness, driver, result, still_bad, max_rounds=40):
+def shrink(harness, driver, result, still_bad, max_rounds=40, budget_s=90.0):
     cur = result
+    t_end = time.time() + budget_s
     for _ in range(max_rounds):
+        if time.time() > t_end:
+            break        # the unshrunk (or partly shrunk) case is as good a replay
         cands = list(dict.fromkeys(shrink_candidates(cur['case'])))[:400]
         if not cands:
             break
         try:
-            lines = impl_eval(harness, cands, timeout=600)
-            rs = evaluate(driver, lines, timeout=600)
+            lines = impl_eval(harness, cands, timeout=60)
+            rs = evaluate(driver, lines, timeout=60)
         except Exception:
             break
         # a candidate counts only if it fails the way the original did: the same kind of verdict (the text
